@@ -2,5 +2,8 @@
   C09 — Header parsing never reads outside the declared header.
   `C09Parts`: per-entry-point theorems; `C09Sweep`: the end-to-end theorem about `HSweep.hsweep`.
 -/
+import Mb2.Props.FnsHtHdr
+import Mb2.Props.FnsDstHdr
+import Mb2.Props.FnsIter
 import Mb2.Props.C09Parts
 import Mb2.Props.C09Sweep
